@@ -55,6 +55,8 @@ type Case struct {
 	Setter     bool     `json:"setter"`
 	Poison     bool     `json:"poison"`
 	YieldMask  uint32   `json:"yield_mask"`
+	// NoScribble leaves redeemed objects as they are (scribbling would hide state a constructor forgets to reset)
+	NoScribble bool `json:"no_scribble,omitempty"`
 }
 
 func genCase(t *rapid.T) Case {
@@ -112,6 +114,7 @@ func genCase(t *rapid.T) Case {
 	c.Procs = rapid.SampledFrom([]int{1, 2, 4, 16}).Draw(t, "gomaxprocs")
 	c.Setter = rapid.Bool().Draw(t, "setter")
 	c.Poison = rapid.Bool().Draw(t, "poison")
+	c.NoScribble = rapid.IntRange(0, 2).Draw(t, "noscribble") == 0
 	c.YieldMask = rapid.SampledFrom([]uint32{0, 1, 3, 7}).Draw(t, "yieldmask")
 	return c
 }
@@ -221,7 +224,9 @@ func check(c Case) (out ev.Outcome) {
 	var tick uint32
 	mask := c.YieldMask
 	hook.SetRedeemHook(func(obj any) bool {
-		scribble.Scribble(obj, poison)
+		if !c.NoScribble {
+			scribble.Scribble(obj, poison)
+		}
 		if mask != 0 && atomic.AddUint32(&tick, 1)&mask == 0 {
 			runtime.Gosched()
 		}
